@@ -484,3 +484,77 @@ Check SrcTie3Raw.translated_raw_nonvacuous.
 Theorem C11_tie_translated_raw_nonvacuous : ltac:(let t := type of SrcTie3Raw.translated_raw_nonvacuous in exact t).
 Proof. exact SrcTie3Raw.translated_raw_nonvacuous. Qed.
 Print Assumptions C11_tie_translated_raw_nonvacuous.
+
+(* ---------- Tie A level 1, work package encT (tools/src2v3_enc.py -> gen/Src3e.v): the READING side of the encryption layer
+   (load_in_cache, read_internal, Read::read, the three arms of Seek::seek, new + initialize) re-translated from
+   mla/src/layers/encrypt.rs statement by statement IS EncLayer.v's (theories/SrcTie3Enc.v), and C11 holds of the
+   translated reader (theories/SrcTie3EncC.v) ---------- *)
+From MLA Require SrcTie3Enc SrcTie3EncC.
+From MLAGen Require Src3e.
+(* the TRANSLATED EncryptionLayerReader (read; seek from start / current / end) behaves as a cursor over the
+   plaintext, over ANY inner stream that behaves as a cursor over its wire form; the two extra premises are the
+   u64 / i64 ranges of the Rust arithmetic (the D20 guard never fires inside the stream; its length fits an i64) *)
+Theorem C11_enc_reader_refines_src :
+  forall (S : Stream) (CHUNK TAG : N) (ks : N -> N -> N) (tagc : N -> bytes -> bytes) (site_index site_unwrap : N),
+    0 < CHUNK -> 0 < TAG -> (forall i c, len (tagc i c) = TAG) ->
+  forall (plain : bytes) (Rin : st S -> N -> Prop),
+    Refines S (enc_format CHUNK ks tagc plain) Rin ->
+    nfull CHUNK (len plain) + 2 < 2 ^ 32 ->
+    (len plain / CHUNK + 1) * (CHUNK + TAG) <= 2 ^ 64 - 1 -> len plain < 2 ^ 63 ->
+  forall fuel,
+    Refines (SrcTie3EncC.EncReaderSrc S CHUNK TAG ks tagc site_index site_unwrap fuel) plain
+      (fun x p => Renc CHUNK TAG ks tagc S plain Rin (SrcTie3Enc.abs S x) p).
+Proof. exact SrcTie3EncC.enc_reader_refines_src. Qed.
+Print Assumptions C11_enc_reader_refines_src.
+Check SrcTie3Enc.eload_src.
+Theorem C11_tie_eload_src : ltac:(let t := type of SrcTie3Enc.eload_src in exact t).
+Proof. exact SrcTie3Enc.eload_src. Qed.
+Print Assumptions C11_tie_eload_src.
+Check SrcTie3Enc.enc_read_internal_sim.
+Theorem C11_tie_enc_read_internal_sim : ltac:(let t := type of SrcTie3Enc.enc_read_internal_sim in exact t).
+Proof. exact SrcTie3Enc.enc_read_internal_sim. Qed.
+Print Assumptions C11_tie_enc_read_internal_sim.
+Check SrcTie3Enc.enc_read_sim.
+Theorem C11_tie_enc_read_sim : ltac:(let t := type of SrcTie3Enc.enc_read_sim in exact t).
+Proof. exact SrcTie3Enc.enc_read_sim. Qed.
+Print Assumptions C11_tie_enc_read_sim.
+Check SrcTie3Enc.enc_seek_start_sim.
+Theorem C11_tie_enc_seek_start_sim : ltac:(let t := type of SrcTie3Enc.enc_seek_start_sim in exact t).
+Proof. exact SrcTie3Enc.enc_seek_start_sim. Qed.
+Print Assumptions C11_tie_enc_seek_start_sim.
+Check SrcTie3Enc.enc_seek_start_guard.
+Theorem C11_tie_enc_seek_start_guard : ltac:(let t := type of SrcTie3Enc.enc_seek_start_guard in exact t).
+Proof. exact SrcTie3Enc.enc_seek_start_guard. Qed.
+Print Assumptions C11_tie_enc_seek_start_guard.
+Check SrcTie3Enc.enc_seek_current_sim.
+Theorem C11_tie_enc_seek_current_sim : ltac:(let t := type of SrcTie3Enc.enc_seek_current_sim in exact t).
+Proof. exact SrcTie3Enc.enc_seek_current_sim. Qed.
+Print Assumptions C11_tie_enc_seek_current_sim.
+Check SrcTie3Enc.enc_seek_end_sim.
+Theorem C11_tie_enc_seek_end_sim : ltac:(let t := type of SrcTie3Enc.enc_seek_end_sim in exact t).
+Proof. exact SrcTie3Enc.enc_seek_end_sim. Qed.
+Print Assumptions C11_tie_enc_seek_end_sim.
+Check SrcTie3Enc.enc_seek_sim.
+Theorem C11_tie_enc_seek_sim : ltac:(let t := type of SrcTie3Enc.enc_seek_sim in exact t).
+Proof. exact SrcTie3Enc.enc_seek_sim. Qed.
+Print Assumptions C11_tie_enc_seek_sim.
+Check SrcTie3Enc.enc_open_src.
+Theorem C11_tie_enc_open_src : ltac:(let t := type of SrcTie3Enc.enc_open_src in exact t).
+Proof. exact SrcTie3Enc.enc_open_src. Qed.
+Print Assumptions C11_tie_enc_open_src.
+Check SrcTie3EncC.enc_open_spec_src.
+Theorem C11_tie_enc_open_spec_src : ltac:(let t := type of SrcTie3EncC.enc_open_spec_src in exact t).
+Proof. exact SrcTie3EncC.enc_open_spec_src. Qed.
+Print Assumptions C11_tie_enc_open_spec_src.
+Check SrcTie3EncC.translated_enc_reader_runs.
+Theorem C11_tie_translated_enc_reader_runs : ltac:(let t := type of SrcTie3EncC.translated_enc_reader_runs in exact t).
+Proof. exact SrcTie3EncC.translated_enc_reader_runs. Qed.
+Print Assumptions C11_tie_translated_enc_reader_runs.
+Check SrcTie3EncC.translated_enc_reader_hyps.
+Theorem C11_tie_translated_enc_reader_hyps : ltac:(let t := type of SrcTie3EncC.translated_enc_reader_hyps in exact t).
+Proof. exact SrcTie3EncC.translated_enc_reader_hyps. Qed.
+Print Assumptions C11_tie_translated_enc_reader_hyps.
+Check SrcTie3EncC.seek_start_guard_model_differs.
+Theorem C11_tie_seek_start_guard_model_differs : ltac:(let t := type of SrcTie3EncC.seek_start_guard_model_differs in exact t).
+Proof. exact SrcTie3EncC.seek_start_guard_model_differs. Qed.
+Print Assumptions C11_tie_seek_start_guard_model_differs.
